@@ -13,6 +13,7 @@
      GRawOpt     the same behind `if !p.is_null()`
      GMem        a caller-memory pointer (out-parameter, struct) dereferenced with no NULL test
      GOwn        Vec::from_raw_parts / from_raw on a parameter the registry does not track
+   and  GDerefOpt   `if !p.is_null() { deref_mut_or_return!(p, T) }`: an optional handle, NULL allowed, anything else validated
    An argument list is one N per parameter in declaration order: an address for pointers, 0 / len+1 for a
    C string (0 = NULL), the value for integers, 0 / 1 for other pointers (0 = NULL).
 
@@ -34,11 +35,13 @@ Inductive guard :=
 | GRaw (p : nat) (t : tid)
 | GRawOpt (p : nat) (t : tid)
 | GMem (p : nat)
-| GOwn (p : nat).
+| GOwn (p : nat)
+| GDerefOpt (p : nat) (t : tid).
 
 (* what a parameter is, from the signature *)
 Inductive pkind :=
 | PHandle (t : tid)      (* *mut T / *const T with T a registry type *)
+| PHandleOpt (t : tid)   (* the same, documented as optional: NULL allowed *)
 | PStr                   (* *const c_char, required *)
 | PStrOpt                (* *const c_char read with cstr_option! / string arrays: NULL allowed *)
 | PBytes                 (* *const c_uchar with a length parameter *)
@@ -120,6 +123,12 @@ Fixpoint run_guards (gs : list guard) (args : list N) (r : reg) (own : list aid)
              end
     | GMem p => if argn args p =? 0 then (r, own, GUndef) else run_guards gs' args r own
     | GOwn p => if argn args p =? 0 then run_guards gs' args r own else (r, own, GUndef)
+    | GDerefOpt p t =>
+        if argn args p =? 0 then run_guards gs' args r own
+        else match validate r (argn args p) t with
+             | ROk => run_guards gs' args r own
+             | RErr e => (r, own, GFail (of_rerr e))
+             end
     end
   end.
 
@@ -181,6 +190,11 @@ Definition is_check (p : nat) (t : tid) (g : guard) : bool :=
   | GDeref q u | GUntrack q u => Nat.eqb p q && (t =? u)
   | _ => false
   end.
+Definition is_check_opt (p : nat) (t : tid) (g : guard) : bool :=
+  match g with
+  | GDeref q u | GUntrack q u | GDerefOpt q u => Nat.eqb p q && (t =? u)
+  | _ => false
+  end.
 Definition is_cstr (p : nat) (g : guard) : bool := match g with GCstr q => Nat.eqb p q | _ => false end.
 Definition is_bytes (p : nat) (g : guard) : bool := match g with GBytes q _ => Nat.eqb p q | _ => false end.
 Definition is_ptr (p : nat) (g : guard) : bool := match g with GPtr q => Nat.eqb p q | _ => false end.
@@ -188,7 +202,7 @@ Definition is_ptr (p : nat) (g : guard) : bool := match g with GPtr q => Nat.eqb
 (* a guard that checks: no unvalidated dereference, no silent error *)
 Definition checked (g : guard) : bool :=
   match g with
-  | GPtr _ | GDeref _ _ | GUntrack _ _ | GCstr _ | GBytes _ _ => true
+  | GPtr _ | GDeref _ _ | GUntrack _ _ | GCstr _ | GBytes _ _ | GDerefOpt _ _ => true
   | GPtrSilent _ | GRaw _ _ | GRawOpt _ _ | GMem _ | GOwn _ => false
   end.
 Definition no_undef (g : guard) : bool :=
@@ -200,6 +214,7 @@ Fixpoint params_guarded (i : nat) (ps : list pkind) (gs : list guard) : bool :=
   | k :: ps' =>
       (match k with
        | PHandle t => existsb (is_check i t) gs
+       | PHandleOpt t => existsb (is_check_opt i t) gs
        | PStr => existsb (is_cstr i) gs
        | PBytes => existsb (is_bytes i) gs
        | POut => existsb (is_ptr i) gs
